@@ -291,13 +291,13 @@ PROPS = {
         lemmas=['npos_ext', 'nneg_ext', 'nneut_ext', 'dform_ext', 'C05_delta_substitution', 'C05_dmax_substitution', 'C05_kappa_substitution',
                 'scd_inner_ext', 'scd_outer_ext', 'C05_scd_substitution', 'npos_inv', 'dform_inv', 'C05_delta_inversion',
                 'scd_inner_inv', 'scd_outer_inv', 'C05_scd_inversion', 'rmax_lower',
-                'npos_split', 'nneg_split', 'dform_split', 'npos_rev', 'dform_rev', 'C05_delta_reversal', 'C05_dmax_reversal', 'C05_kappa_reversal', 'count_partition'],
+                'npos_first', 'dform_first', 'npos_rev', 'dform_rev', 'C05_delta_reversal', 'C05_dmax_reversal', 'C05_kappa_reversal', 'count_partition'],
         native='c05',
         explanation='relational theorems over the closed forms the API functions are PROVED to return (get_delta = delta_spec, get_SCD = scd_spec, get_deltaMax = dmax_seq, get_kappa = kappa_seq, '
                     'get_Omega = kappa_seq of the recoded string): for any two sequences whose residues have pairwise equal charge class, delta, delta-max, kappa and SCD are equal (inductive extensionality lemmas over the sums, '
                     'all discharged by z3); for any two sequences related by charge inversion, delta and SCD are equal. Omega under substitution inside {P,E,D,K,R} / the other fifteen is the kappa theorem applied to the recoded strings. '
                     'REVERSAL: for any two sequences with charge(t[j]) == charge(s[N-1-j]), delta, delta-max and kappa are equal (count reversal and blob-sum reversal lemmas by induction, using '
-                    'split lemmas because the sums are defined by peeling the last element; delta-max is a function of the three counts). '
+                    'peel-first lemmas because the sums are defined by peeling the last element; delta-max is a function of the three counts). '
                     'NOT mechanised: reversal invariance of SCD (triangular double-sum re-indexing) and inversion invariance of delta-max / kappa (the candidate families map onto each other under '
                     'inversion + reversal) - bounded native relation check (exhaustive patterns up to length 6/8, random sequences incl. skewed compositions with >= 18 neutrals)',
         assumptions=['reversal of SCD and Omega, inversion of delta-max/kappa/Omega: bounded native check only',
